@@ -94,7 +94,34 @@ func isCounter(p *Prog, f *ssa.Function, x ssa.Value) bool {
 		if !ok {
 			return false
 		}
-		// f adds to that field before the load
+		// f adds to that field — before the load, or (test first, then count) behind it
+		for _, fn := range withClosures(topLevel(f)) {
+			if fn != f {
+				continue
+			}
+			for _, b := range fn.Blocks {
+				for _, in := range b.Instrs {
+					st, ok := in.(*ssa.Store)
+					if !ok {
+						continue
+					}
+					fb, ok := st.Addr.(*ssa.FieldAddr)
+					if !ok || !sameField(fa, fb) {
+						continue
+					}
+					add, ok := st.Val.(*ssa.BinOp)
+					if !ok || add.Op != token.ADD {
+						continue
+					}
+					if k, isK := constInt(add.Y); !isK || k <= 0 {
+						continue
+					}
+					if fc, ok := fieldOf(add.X); ok && sameField(fa, fc) && ReachesFromInstr(v, in) && v.Block().Dominates(in.Block()) {
+						return true
+					}
+				}
+			}
+		}
 		return MustPass(v, func(in ssa.Instruction) bool {
 			st, ok := in.(*ssa.Store)
 			if !ok {
@@ -904,22 +931,46 @@ func ruleC01Counters(p *Prog, a *Anchors, r *Report) {
 		if recIdx >= 0 {
 			n++
 			key := p.FuncName(f) + ":carries " + st.Field(recIdx).Name()
-			shared := false
-			for _, b := range f.Blocks {
-				for _, in := range b.Instrs {
-					x, ok := in.(*ssa.Store)
-					if !ok {
-						continue
-					}
-					fa, ok := x.Addr.(*ssa.FieldAddr)
-					if !ok || fa.Field != recIdx || unspillParam(stripLoad(fa.X)) != ssa.Value(fresh) {
-						continue
-					}
-					if c01RecordOf(p, x.Val, parent, recIdx) {
-						shared = true
+			var sharesIn func(fn *ssa.Function, dst, src ssa.Value, depth int) bool
+			sharesIn = func(fn *ssa.Function, dst, src ssa.Value, depth int) bool {
+				for _, b := range fn.Blocks {
+					for _, in := range b.Instrs {
+						switch x := in.(type) {
+						case *ssa.Store:
+							fa, ok := x.Addr.(*ssa.FieldAddr)
+							if !ok || fa.Field != recIdx || unspillParam(stripLoad(fa.X)) != dst {
+								continue
+							}
+							if c01RecordOf(p, x.Val, src, recIdx) {
+								return true
+							}
+						case *ssa.Call:
+							// a helper that is handed both contexts (child.inheritRendering(parent))
+							callee := x.Common().StaticCallee()
+							if callee == nil || !p.InPkg(callee) || callee.Blocks == nil || depth > 1 {
+								continue
+							}
+							var pd, ps ssa.Value
+							for i, arg := range callArgs(x.Common()) {
+								if i >= len(callee.Params) {
+									break
+								}
+								switch unspillParam(stripLoad(arg)) {
+								case dst:
+									pd = callee.Params[i]
+								case src:
+									ps = callee.Params[i]
+								}
+							}
+							if pd != nil && ps != nil && sharesIn(callee, pd, ps, depth+1) {
+								return true
+							}
+						}
 					}
 				}
+				return false
 			}
+			shared := sharesIn(f, fresh, parent, 0)
 			if shared {
 				r.OK(key, p.Pos(f.Pos()), "the derived context refers to the counters of the rendering it belongs to")
 			} else {
